@@ -22,7 +22,7 @@ SIZES = {'a': 8, 'b': 12, 'x::y': 16, 'c': 20}
 
 
 def assume(a, ps, nmax):
-    A = [a[0] == ps, z3.ULE(a[1], 1)] + [z3.ULE(a[i], 1) for i in (2, 3, 4, 5)] + [z3.ULE(a[6], nmax)]
+    A = [a[0] == ps, z3.ULE(a[1], 1)] + [z3.ULE(a[i], 1) for i in (2, 4, 5)] + [z3.ULE(a[3], 2), z3.Implies(a[1] != 0, z3.ULE(a[3], 1)), z3.ULE(a[6], nmax)]
     for i in range(4):
         A.append(z3.ULE(a[7 + i], 8))
         A.append(z3.Implies(z3.ULE(a[6], i), a[7 + i] == 0))
@@ -104,5 +104,6 @@ def describe(template, args):
     out = ['// pointer size %d; `%s` is an extern type of size 8/12/16/20 in a / b / x::y / c where declared' % (a[0], nm)]
     out.append('module a: ' + ' '.join(U.get(a[7 + i], '') for i in range(min(a[6], 4))) + (' extern type %s;' % nm if a[2] else '') + ' #[align(4)] pub type R { pub f: %s }' % nm)
     for flag, m in ((a[3], 'b'), (a[4], 'x::y'), (a[5], 'c')):
-        out.append('module %s: %s%s' % (m, 'extern type %s;' % nm if flag else '(empty)', ' extern type %s2;' % nm if m == 'b' else ''))
+        decl = '(empty)' if not flag else ('#[align(4)] type %s { pub p0: u32, pub p1: u32, pub p2: u32 }   (private)' % nm if flag == 2 else 'extern type %s;' % nm)
+        out.append('module %s: %s%s' % (m, decl, ' extern type %s2;' % nm if m == 'b' else ''))
     return '\n'.join(out)
